@@ -20,14 +20,18 @@ MIXIN_DIRECTIVE = "\ndirective @mixin(from: String, import: String) repeatable o
 SDL = """
 enum Kind { WILD TAME }
 
-interface Animal {
+interface Named {
+  name: String
+}
+
+interface Animal implements Named {
   id: ID!
   name: String
   kind: Kind
   owner: Person
 }
 
-type Dog implements Animal {
+type Dog implements Animal & Named {
   id: ID!
   name: String
   kind: Kind
@@ -37,7 +41,7 @@ type Dog implements Animal {
   mate: Dog
 }
 
-type Cat implements Animal {
+type Cat implements Animal & Named {
   id: ID!
   name: String
   kind: Kind
@@ -73,16 +77,16 @@ type Query {
 }
 """
 
-LEAVES = {"Animal": ["id", "name", "kind"], "Dog": ["id", "name", "kind", "bark"], "Cat": ["id", "name", "kind", "lives"],
+LEAVES = {"Named": ["name"], "Animal": ["id", "name", "kind"], "Dog": ["id", "name", "kind", "bark"], "Cat": ["id", "name", "kind", "lives"],
           "Person": ["id", "name", "age"], "Address": ["city", "zip"]}
-COMPOSITE = {"Animal": [("owner", "Person")], "Dog": [("owner", "Person"), ("friends", "Animal"), ("mate", "Dog")],
+COMPOSITE = {"Named": [], "Animal": [("owner", "Person")], "Dog": [("owner", "Person"), ("friends", "Animal"), ("mate", "Dog")],
              "Cat": [("owner", "Person")],
              "Person": [("pets", "Pet"), ("best", "Animal"), ("address", "Address"), ("boss", "Person")],
              "Address": [], "Pet": []}
 ROOTS = [("animal", "Animal"), ("animals", "Animal"), ("dog", "Dog"), ("cat", "Cat"), ("pet", "Pet"),
          ("person", "Person"), ("people", "Person")]
 IMPLS = {"Animal": ["Dog", "Cat"], "Pet": ["Dog", "Cat"]}
-SHAPES = ["chain", "diamond", "shared", "iface", "union", "inline", "unused", "mixed", "conditional", "nested_mention"]
+SHAPES = ["chain", "diamond", "shared", "iface", "union", "inline", "unused", "mixed", "conditional", "nested_mention", "iface_cond"]
 # fragment names are written in every case style: the generator keys its dictionaries by the WRITTEN name and
 # PascalCases it for the class, so the two must never be confused
 NAME_STYLES = ["Pascal", "lowerCamel", "snake_case", "UPPER", "digits_underscores", "case_twin"]
@@ -254,6 +258,24 @@ class FragGen:
                 ops.pop()
                 op("UsesNone", r.choice(root_of[T]), self.leaves(T, 1, 2))
             _ = u1
+        elif shape == "iface_cond":
+            # a named fragment on interface I spread INSIDE `... on I` at a position whose type implements I but is
+            # not I: the inline fragment's selection set is evaluated for I, so the fragment is a base class there
+            # (also one level deeper, and along object -> interface -> interface chains)
+            fa = self.new_fragment("Animal", self.leaves("Animal", 1, 2), self.mixin(0.2))
+            fn = self.new_fragment("Named", ["name"])
+            fd = self.new_fragment("Dog", self.leaves("Dog", 1, 2))
+            op("AtObject", r.choice(["dog", "cat"]), self.leaves("Dog", 0, 0) + ["name", f"... on Animal {{ ...{fa} }}"])
+            op("Deeper", r.choice(["animal", "animals"]),
+               ["..." + fa, f"... on Dog {{ ... on Animal {{ ...{fa} }} ...{fd} }}"] if r.random() < 0.5
+               else ["id", f"... on Dog {{ ... on Named {{ ...{fn} }} }}"])
+            op("Chain", "dog", [f"... on Animal {{ ... on Named {{ ...{fn} }} id }}"])
+            if r.random() < 0.6:
+                op("IfaceAtIface", "animal", ["id", f"... on Named {{ ...{fn} }}"])
+            if r.random() < 0.5:
+                op("InUnion", "pet", ["__typename", f"... on Dog {{ ... on Animal {{ ...{fa} }} }}", "... on Cat { lives }"])
+            if r.random() < 0.5:
+                op("CondIfaceCond", "dog", [f"... on Animal{self.cond()} {{ ...{fa} }}", "bark"])
         elif shape == "nested_mention":
             # sibling fragments on a recursive type that mention each other only BELOW a nested field (or only
             # conditionally): neither inherits the other, both must stay bases of a class spreading both
